@@ -31,6 +31,12 @@ func (rt *runtime) cmplCallNodeFunction(function *object, stash *fnStash, node *
 		value := Value{}
 		if index < len(argumentList) {
 			value = argumentList[index]
+			// A duplicated name is mapped at its last position only.
+			for earlier := range index {
+				if indexOfParameterName[earlier] == name {
+					indexOfParameterName[earlier] = ""
+				}
+			}
 			indexOfParameterName[index] = name
 		}
 		// strict = false
@@ -44,7 +50,7 @@ func (rt *runtime) cmplCallNodeFunction(function *object, stash *fnStash, node *
 		// strict = false
 		rt.scope.lexical.setValue("arguments", objectValue(arguments), false)
 		for index := range argumentList {
-			if index < len(node.parameterList) {
+			if indexOfParameterName[index] != "" {
 				continue
 			}
 			indexAsString := strconv.FormatInt(int64(index), 10)
